@@ -604,7 +604,7 @@ impl<'a> ExpandedSelection<'a> {
             if fields.peek().is_none() && !on_variants.is_empty() {
                 let item = quote! {
                     #response_derives
-                    #[serde(tag = "__typename")]
+                    #[serde(tag = "__typename", crate = #serde_path)]
                     pub enum #struct_name {
                         #(#on_variants),*
                     }
@@ -620,7 +620,7 @@ impl<'a> ExpandedSelection<'a> {
 
                 let on_enum = quote!(
                     #response_derives
-                    #[serde(tag = "__typename")]
+                    #[serde(tag = "__typename", crate = #serde_path)]
                     pub enum #enum_name {
                         #(#on_variants,)*
                     }
